@@ -35,6 +35,7 @@ type Enum struct {
 	calib      map[uint32]*Calib
 	inCalib    bool
 	Unreachable []string
+	Policy     func(k int, n uint32) uint32 // index for draws beyond the plan (nil: 0)
 }
 
 func NewEnum(seed int64) *Enum {
@@ -169,6 +170,8 @@ func (e *Enum) Run(plan []uint32, body func()) (out RunOut) {
 		var idx uint32
 		if k < len(plan) {
 			idx = plan[k]
+		} else if e.Policy != nil {
+			idx = e.Policy(k, n)
 		}
 		k++
 		if idx >= n {
